@@ -27,6 +27,36 @@ type c12Out struct {
 	airGates  []string // reference: gate sequence of all airgapped tasks
 	windows   []string
 	fed       map[int][][]byte // operation files fed to each machine, in order
+	oplog     map[int]string   // per machine: the durable operation log (ids in order) at the end
+}
+
+// opLogOf reads the machine's durable operation log (hook H2 snapshot).
+func opLogOf(a *AirNode) string {
+	if a.M == nil {
+		return ""
+	}
+	snap, err := a.M.SimSnapshot()
+	if err != nil {
+		return ""
+	}
+	var lg map[string][]types.Operation
+	if json.Unmarshal(snap["operations_log"], &lg) != nil {
+		return "?"
+	}
+	var rs []string
+	for r := range lg {
+		rs = append(rs, r)
+	}
+	sort.Strings(rs)
+	var sb strings.Builder
+	for _, r := range rs {
+		fmt.Fprintf(&sb, "%.6s:", r)
+		for _, o := range lg[r] {
+			fmt.Fprintf(&sb, "%s,", o.Type)
+		}
+		sb.WriteString(";")
+	}
+	return sb.String()
 }
 
 func shareOf(a *AirNode, round string) string {
@@ -144,8 +174,10 @@ func runC12World(w *World, tier string, crashAt []int, out *c12Out) (bool, inter
 		if gk, err := w.GroupKey(round); err == nil {
 			out.groupKey = fmt.Sprintf("%x", gk)
 		}
+		out.oplog = map[int]string{}
 		for i, a := range w.Airs {
 			out.shares[i] = shareOf(a, round)
+			out.oplog[i] = opLogOf(a)
 		}
 	}
 	for _, a := range w.Airs {
@@ -289,6 +321,11 @@ func c12Driver(t *testing.T, sc *Scenario, tier string, tape *sim.Tape, keepAll 
 			case rec.groupKey != ref.groupKey:
 				r.Violation = &sim.Violation{Property: "C12", Signature: "group-key-differs-from-uninterrupted-run/" + ws, Detail: fmt.Sprintf("after restart+replay (%s): group key %s, uninterrupted run %s", ws, rec.groupKey, ref.groupKey)}
 			default:
+				for i, lg := range ref.oplog {
+					if rec.oplog[i] != lg && r.Violation == nil {
+						r.Violation = &sim.Violation{Property: "C12", Signature: "operation-log-differs-from-uninterrupted-run/" + ws, Detail: fmt.Sprintf("machine %d: after restart+replay (%s) its durable operation log is [%s], in the uninterrupted run [%s]", i, ws, rec.oplog[i], lg)}
+					}
+				}
 				for i, s := range ref.shares {
 					if rec.shares[i] != s {
 						r.Violation = &sim.Violation{Property: "C12", Signature: "share-differs-from-uninterrupted-run/" + ws, Detail: fmt.Sprintf("machine %d ends with another private share than in the uninterrupted run (%s)", i, ws)}
@@ -319,14 +356,16 @@ func c12Driver(t *testing.T, sc *Scenario, tier string, tape *sim.Tape, keepAll 
 	agg.Stats.ProbeN("crash-positions-tried", len(positions))
 	if total > 3 {
 		r := tape.Sub(0xc1212)
-		k1 := 1 + int(r.Next()%uint64(total))
-		k2 := k1 + 1 + int(r.Next()%uint64(total))
-		k3 := k2 + 1 + int(r.Next()%uint64(total))
-		if bad := runSub(map[string]string{"mode": "crash", "at": fmt.Sprintf("%d,%d,%d", k1, k2, k3)}); bad != nil {
-			bad.Stats = agg.Stats
-			return *bad
+		for rep := 0; rep < 3; rep++ {
+			k1 := 1 + int(r.Next()%uint64(total))
+			k2 := k1 + 1 + int(r.Next()%uint64(total/2+1))
+			k3 := k2 + 1 + int(r.Next()%uint64(total/2+1))
+			if bad := runSub(map[string]string{"mode": "crash", "at": fmt.Sprintf("%d,%d,%d", k1, k2, k3)}); bad != nil {
+				bad.Stats = agg.Stats
+				return *bad
+			}
+			agg.Stats.Probe("multi-restart-run")
 		}
-		agg.Stats.Probe("multi-restart-run")
 	}
 	if firstKnown != nil {
 		agg.Violation, agg.Params, agg.Tape = firstKnown.Violation, firstKnown.Params, firstKnown.Tape
